@@ -113,11 +113,18 @@ def compile_result(parser, text):
     return ('reject', parser.get_errors())
 
 
+DEGENERATE = ['', ' ', '\n', '\n\n  \t\n', '# all commented out', '# one\n# two\n', '  # c', 'wait', 'end',
+              'begin end', '#', '\t']
+
+
 def texts(rng, n):
     out = []
     for _ in range(n):
         k = rng.random()
-        if k < 0.55:
+        if k < 0.08:
+            # degenerate texts: nothing at all, white space only, comments only, one token
+            out.append(rng.choice(DEGENERATE))
+        elif k < 0.55:
             prog, _pop = progs.generate(rng, size=rng.choice([2, 4, 8]), max_depth=3)
             out.append(progs.render(prog))
         elif k < 0.75:
@@ -172,7 +179,7 @@ def parse_histories(chk, stats):
                      'assign {} 1 print {}'.format(nm, nm), 'define {} 7 print {}'.format(nm, nm),
                      'define {} begin print 2 end {}'.format(nm, nm)]
         for follow in ['on all', 'set "A" and "B"', 'hue 5 break', 'define f begin print 1 end f',
-                       'stage row 1', 'return 5', 'print 1'] + uses:
+                       'stage row 1', 'return 5', 'print 1'] + DEGENERATE[:7] + uses:
             used = Parser()
             compile_result(used, trunc)
             got = compile_result(used, follow)
@@ -290,6 +297,8 @@ def run_histories(chk, stats):
     # shared services (output sink, clock)
     pop = [{'label': 'A', 'kind': 'plain'}]
     cases = [
+        ('on all print 1', ''), ('on all print 1', '# all commented out'), ('hue 5 set all', '\n  \n'),
+        ('repeat 2 begin on all', '# nothing'), ('on all print 1', 'wait'),
         ('assign z 0 printf "{} {}" 1 {1 / z}', 'printf "{}" 7 println 8'),
         ('print 1 print 2', 'print 3 println 4'),
         ('units raw hue 5 assign v 9 define k 3', 'print hue print v'),
